@@ -4,6 +4,11 @@ def run(tier, a=None):
     specs += [{'src': 'h_c02.cpp', 'defs': ['TAG=' + t, 'ZERO_ROT'], 'filter': 'c02_ode.*'} for t in tags(tier) if not t.startswith('R')]
     tr = [{'src': 'h_trunc.cpp', 'defs': ['TAG=' + t], 'filter': 'tr_exp.*', 'ap_prefixes': ['exp(']} for t in tags(tier) if not t.startswith('R')]
     cd = [{'src': 'h_cond.cpp', 'defs': ['TAG=' + t], 'filter': 'cond_exp.*', 'out_prefixes': ['exp(']} for t in ('SE2t', 'SO3t', 'SE3t')]
+    import props.common as pc
+    _o = pc.opts
+    pc.opts = lambda tier, a=None: dict(_o(tier, a), cond_tol='1/1000000000')
+    import props.common2 as pc2
+    pc2.opts = pc.opts
     return combined('C02', tier, a, specs, tr,
         'EXACT (generic branch): d/ds M(exp(s t))|_{s=1} = hat(t) M(exp t) for symbolic t, derivative obtained by running the real exp over dual numbers; the same identity at exactly zero rotation with symbolic linear parts (Taylor branch, exact there); exp(0)=Identity. TRUNC (Taylor branch, 0<theta^2<=eps): every coefficient of exp on the Taylor branch is within 1e-12*max(1,B) of the generic closed form for linear parts in the box |.|<=B, B in {1,1e6}, decided per monomial by z3 with alternating-series enclosures.',
-        ['generic branch: no magnitude bound (real arithmetic)', 'Taylor region: linear components bounded by B in {1, 1e6}; tolerance 1e-12*max(1,B)', 'COND-lite: amplification of libm rounding errors into the coefficients of exp on the generic branch bounded by 1e-6 per decade of the rotation magnitude in (1.5e-7,1]', 'groups: ' + ','.join(tags(tier))], cond_specs=cd)
+        ['generic branch: no magnitude bound (real arithmetic)', 'Taylor region: linear components bounded by B in {1, 1e6}; tolerance 1e-12*max(1,B)', 'COND-lite: amplification of libm rounding errors into the coefficients of exp on the generic branch bounded by 1e-9 (values) per decade of the rotation magnitude between 2.3e-14 and 1 (decades excluded by the path condition are skipped)', 'groups: ' + ','.join(tags(tier))], cond_specs=cd)
